@@ -69,6 +69,7 @@ type interpreter struct {
 	fninfo    map[*ssa.Function]*fnInfo
 	spawnSync bool
 	preemptAfterSend bool // harness opt-in: a goroutine may be descheduled right after a completed send
+	preemptsLeft     int
 	lastExit  int
 	initDepth int
 	sideTab   map[sideKey]*int64
